@@ -43,6 +43,9 @@ def header_key(v):
     if v.op == "Subscript" and v.args[1].op == "Const" and isinstance(v.args[1].attr, str) and \
             v.args[0].op == "Attr" and v.args[0].attr == "header":
         return v.args[1].attr
+    if v.op == "MCall" and v.attr[0] == "get" and len(v.args) >= 2 and v.args[1].op == "Const" and \
+            isinstance(v.args[1].attr, str) and v.args[0].op == "Attr" and v.args[0].attr == "header":
+        return v.args[1].attr
     return None
 
 
@@ -195,6 +198,26 @@ def run(ck, ctx):
                 continue
             ids = [p for p, v, gds in all_leaves if p == upath + ("id",)]
             ck.ob("R16.2", f"the discriminator {'.'.join(upath)}.id is reconstructed", bool(ids), obj, func, "")
+        # a key that is present is never treated as missing: the KeyError guard tests presence, not truthiness
+        raises = [e for e in r.effects if e.kind == "raise" and e.funcs() and e.funcs()[-1].startswith("config_from_fits")]
+        bad = []
+        for e in raises:
+            if not e.pc:
+                continue
+            c, pol = e.pc[-1]
+            core = c
+            while core.op == "UnaryOp" and core.attr == "Not":
+                core, pol = core.args[0], not pol
+            presence = (core.op == "Compare" and core.attr in ("In", "NotIn")) or \
+                (core.op == "Compare" and core.attr in ("Is", "IsNot") and any(a.op == "Const" and a.attr is None for a in core.args))
+            if not presence:
+                bad.append((e, core))
+        for e, core in bad[:2]:
+            ck.ob("R16.2", f"the missing-key test at {e.where()} tests presence of the key", False, core, func,
+                  f"raises when {g.show(core, 2)} is falsy: a header value of 0, 0.0, False or '' would be reported as "
+                  "missing although the file is complete", construct="config_from_fits: truthiness used as presence test")
+        ck.ob("R16.2", "header values of 0 / False / '' are read back like any other value", not bad, obj, func,
+              f"{len(raises)} raise site(s) inspected")
         # "for every spectrum type": each spectrum variant is rebuilt completely
         up = ("simulation", "spectrum")
         fs = sch.field_at(up) or []
